@@ -1,5 +1,6 @@
 import GixModel.Lemmas.C36
 import GixModel.Lemmas.C36Multi2
+import GixModel.Lemmas.C36NoPath
 /-
 C36 — Wildcard matching agrees with git's wildmatch.  PROPERTY THEOREMS ONLY.
 
@@ -90,6 +91,26 @@ theorem multi_star_eq (m : Mode) (p t : Bytes) (hok : PatOk m p) (hds : noDS p =
   · rw [h]; cases dowild (flagsOf m) (p.length + 1) none p t <;> rfl
   · rw [h1]
     cases hg : go m (p.length + 1) 63 p t ⟨0, p⟩ ⟨0, t⟩ <;> first | rfl | exact absurd hg h2
+
+/-- T4 without path mode. With NO_MATCH_SLASH_LITERAL unset (git: no WM_PATHNAME; the mode of plain
+pathspecs, `wildmatch()` callers on ref names, config `includeIf` conditions …) the statement holds
+for EVERY pattern — any number of `*` and `**` anywhere, brackets, escapes — with fewer than 64
+star bytes, and every text: `wildmatch` gives git's answer. -/
+theorem no_pathmode_eq (m : Mode) (hnp : m.noMatchSlash = false) (p t : Bytes) (hok : PatOk m p)
+    (hcnt : (p.filter (· == 42)).length < 64) (ht : NoNul t) :
+    C36.wildmatch m p t = Spec.C36.wildmatch (flagsOf m) p t := by
+  unfold C36.wildmatch Spec.C36.wildmatch matchRecursive RECURSION_LIMIT
+  have h := go_rel_np m hnp (p.length + 1) 63 p t hok ht p t 0 0 none (by simp) (by simp) (by simp)
+    (by unfold count42; omega)
+  simp only [Iter.ofSlice]
+  rcases h with h | ⟨h1, h2⟩
+  · rw [h]; cases dowild (flagsOf m) (p.length + 1) none p t <;> rfl
+  · rw [h1]
+    cases hg : go m (p.length + 1) 63 p t ⟨0, p⟩ ⟨0, t⟩ <;> first | rfl | exact absurd hg h2
+
+-- non-vacuity: `**a***/[x-z]**` without path mode
+example : C36.wildmatch ⟨false, false⟩ [42, 42, 97, 42, 42, 42, 47, 91, 120, 45, 122, 93, 42, 42] [113, 47, 97, 47, 47, 121, 47, 47] = true := by
+  decide +kernel
 
 /-- What git's ABORT_ALL means (patterns without `**`): no suffix of the text matches either. This is
 the soundness of the abort code that the proof of `multi_star_eq` rests on. It is FALSE for `**/`
